@@ -22,6 +22,7 @@ import os
 import random
 import subprocess
 import sys
+import warnings
 from pathlib import Path
 
 import numpy as np
@@ -379,11 +380,11 @@ def canon_files(files):
 class C20(Prop):
     id = "C20"
     anchored = ["src/pewlib/__main__.py", "src/pewlib/io/npz.py", "src/pewlib/io/textimage.py", "src/pewlib/process/filters.py"]
-    cases = {"quick": 260, "thorough": 5000}
-    rule = ("generated command lines of convert / filter / stack over 1..4 inputs written per case (npz, text image with , ; tab "
+    cases = {"quick": 500, "thorough": 5000}
+    rule = ("generated command lines of convert / filter / stack over 1..5 inputs written per case (npz, text image with , ; tab "
             "delimiters and .txt/.text/.csv/.TXT names, Agilent batch with each collection method, Thermo iCap CSV in both layouts, "
-            "per-line CSV directory generic/Nu/TOFWERK), shapes 1x1..7x8 equal and unequal, pairwise distinct values (spikes for the "
-            "filters, NaNs), element subsets incl. unknown names, names present in only some inputs and inputs left with no element, "
+            "per-line CSV directory generic/Nu with and without x/y columns/TOFWERK), shapes 1x1..7x8 equal and unequal, pairwise "
+            "distinct values with full mantissas (spikes for the filters, NaNs), stacks of one instrument import followed by npz files, element subsets incl. unknown names, names present in only some inputs and inputs left with no element, "
             "--config, both filters with windows 3/5/7 and thresholds 0..3, both orientations, NaN/finite/default pad, output omitted / "
             "existing directory / file (lower and upper case suffix) / mismatching suffix / missing directory / file with several inputs, "
             "formats .npz .csv .vtk and an invalid one, a missing input; run in process (main() with patched argv) and as "
@@ -411,7 +412,7 @@ class C20(Prop):
     def build(self, rng, tier, cmd, **force):
         names = fmt_names()
         n = force.get("n", rng.choice([1, 2, 2, 3, 3, 3, 4, 5] if cmd == "stack" else [1, 1, 2, 2, 2, 3, 3, 4]))
-        p_sub = {"quick": 0.05, "thorough": 0.5}[tier]
+        p_sub = {"quick": 0.08, "thorough": 0.5}[tier]
         mode = force.get("mode", "subproc" if rng.random() < p_sub else "inproc")
         heavy = 0.12 if tier == "quick" else 0.3  # csvdir spawns a process pool per load
         weights = {"npz": 4, "txt": 3, "agilent": 2, "thermo": 2, "csvdir": 8 * heavy}
@@ -640,7 +641,9 @@ class C20(Prop):
         old = getattr(pcsv, "ProcessPoolExecutor", None)
         pcsv.ProcessPoolExecutor = SyncExecutor
         try:
-            return self._evaluate(case, ctx)
+            with warnings.catch_warnings(), np.errstate(all="ignore"):
+                warnings.simplefilter("ignore")  # e.g. the median of an empty slice for the y spacing of a one-line Nu directory
+                return self._evaluate(case, ctx)
         finally:
             pcsv.ProcessPoolExecutor = old
 
